@@ -97,6 +97,10 @@ class ExprMixin:
             return V(ty, ty.some(self.coerce(v, ty.elem, node).z))
         if isinstance(ty, T.ObjT) and isinstance(v.ty, T.ObjT) and ty.root == v.ty.root:
             return V(ty, v.z)   # up/down cast inside one class hierarchy (same sort)
+        if (v.ty.name, ty.name) in self.coerce_hooks:
+            return self.coerce_hooks[(v.ty.name, ty.name)](self, v)
+        if isinstance(ty, T.SetT) and isinstance(v.ty, T.ListV) and v.ty.elem == ty.elem:
+            return V(ty, v.ty.elems(v.z))     # a collection used only through membership / iteration
         if ty is T.REAL and v.ty is T.INT:
             return V(T.REAL, z3.ToReal(v.z))
         if ty is T.INT and v.ty is T.BOOL:
@@ -187,6 +191,9 @@ class ExprMixin:
 
     def fresh(self, ty, hint, st):
         """fresh constant with its type invariant assumed"""
+        if st.binder and st.mode != "spec":
+            # a value created per element of a comprehension must be a TERM in the bound variable
+            raise Unsupported(f"non-functional value ({hint}) inside a comprehension / generator body")
         z = ty.fresh(hint)
         inv = ty.inv(z)
         return V(ty, z), (st.assume(inv) if inv is not None else st)
